@@ -194,7 +194,7 @@ int main(int argc, char** argv)
     static const char* quasi[] = {"bfgs", "dfp", "sr1", "hoshino", "fletcher"};
     static const char* lks[]   = {"cgdescent", "morethuente", "fletcher", "lemarechal", "backtrack"};
     static const int   dims[]  = {2, 3, 4, 5, 6, 8, 10, 12, 16};
-    g_cap = thorough ? 60 : 24;
+    g_cap = thorough ? 40 : 24;
 
     long id = 0, runs = 0;
     const long cap0 = g_cap;
